@@ -241,6 +241,21 @@ def _dataset(inp, N):
     S = inp["n_snap"]
     d = rs.normal(scale=inp.get("amp", 0.05), size=(S, N, 3))
     f = rs.normal(size=(S, N, 3))
+    d, f = _dataset_kind(inp, d, f)
+    return d, f
+
+
+def _dataset_kind(inp, d, f):
+    """datasets of the shapes users really supply: the undisplaced structure as first snapshot (with its residual
+    forces), snapshots that occur twice (overlapping datasets concatenated)"""
+    kind = inp.get("dataset_kind")
+    if kind == "undisplaced_first":
+        d = d.copy()
+        d[0] = 0.0
+    elif kind == "repeated":
+        k = max(1, d.shape[0] // 5)
+        d = np.concatenate([d, d[:k]])
+        f = None if f is None else np.concatenate([f, f[:k]])
     return d, f
 
 
@@ -264,6 +279,7 @@ def check_recovery(inp) -> list:
         truth[o] = ph.expand(bs, rs.normal(size=sizes[o]) * (10.0 ** (o - 2)), N, o)
     S = inp["n_snap"]
     u = rs.normal(scale=inp.get("amp", 0.05), size=(S, N, 3))
+    u, _ = _dataset_kind(inp, u, None)
     F = ph.taylor_forces(truth, u)
     out = []
     try:
@@ -475,6 +491,7 @@ def gen_fit_inputs(rng, n, max_N=(6, 4, 3), combos=None):
             # small-amplitude stream (only where the normal equations stay well conditioned: orders <= 3)
             amp = rng.choice([1e-3, 3e-4])
         yield {"crystal": cr, "orders": list(orders), "n_snap": n_snap, "data_seed": rng.randrange(10 ** 6), "amp": amp,
+               "dataset_kind": rng.choice([None, None, None, "undisplaced_first", "repeated"]),
                "tol": 1e-6 if amp >= 0.01 else 1e-5,
                "compact": rng.random() < 0.5, "batch_size": rng.choice([None, 1, 3, 7]),
                "hooks": hooks}
@@ -501,6 +518,25 @@ def check_cutoff(inp) -> list:
     if dev > 1e-6:
         out.append(f"minimum-image distances change (by {dev:.4f}) when atoms are written with integer offsets of their "
                    f"fractional coordinates")
+        return out
+    # the same crystal with its lattice vectors listed in another order / with other signs (a signed permutation U of
+    # the basis, coordinates transformed along) and turned by quarter turns about the Cartesian axes (a signed
+    # permutation matrix Q with det +1): an orthogonal cell then no longer has a diagonal cell matrix
+    rs_o = np.random.default_rng(inp.get("seed", 0) + 23)
+
+    def signed_perm(proper):
+        while True:
+            M = np.zeros((3, 3))
+            for r_, c_ in enumerate(rs_o.permutation(3)):
+                M[r_, c_] = rs_o.choice([-1.0, 1.0])
+            if not proper or np.linalg.det(M) > 0:
+                return M
+    U, Q = signed_perm(False), signed_perm(True)
+    cr_o = Crystal(cr.name, U @ cr.lattice @ Q.T, cr.positions @ np.linalg.inv(U), cr.numbers, cr.n_lp_expected, {})
+    dev = float(np.abs(FCCutoff(cr_o.atoms(), cutoff=1.0).distances - ref).max())
+    if dev > 1e-6:
+        out.append(f"minimum-image distances change (by {dev:.4f}) when the lattice vectors are re-listed as "
+                   f"{U.astype(int).tolist()} and the crystal is turned by {Q.astype(int).tolist()}")
         return out
     vals = np.unique(np.round(ref[ref > 1e-6], 6))
     cuts = [float((a + b) / 2) for a, b in zip(vals[:-1], vals[1:])] + [float(vals[-1] + 0.5)] if len(vals) else []
@@ -671,10 +707,17 @@ def check_description(inp) -> list:
         cr2 = Crystal(cr.name, L2, pos2, cr.numbers, cr.n_lp_expected, {})
         B = _projector(mk(cr2))
         compare(B, f"unimodular basis change {U.tolist()}")
-    elif kind == "rotate":
+    elif kind in ("rotate", "reorient"):
         Q = np.array(inp["Q"])
         L2 = cr.lattice @ Q.T
-        cr2 = Crystal(cr.name, L2, cr.positions, cr.numbers, cr.n_lp_expected, {})
+        pos2 = cr.positions
+        if kind == "reorient":
+            # lattice vectors re-listed / re-signed (U) AND the crystal turned by quarter turns (Q): an orthogonal cell
+            # keeps orthogonal lattice vectors but its cell matrix is no longer diagonal
+            U = np.array(inp["U"], dtype=float)
+            L2 = U @ cr.lattice @ Q.T
+            pos2 = cr.positions @ np.linalg.inv(U)
+        cr2 = Crystal(cr.name, L2, pos2, cr.numbers, cr.n_lp_expected, {})
         B = _projector(mk(cr2))
 
         def tr(M):
@@ -682,17 +725,20 @@ def check_description(inp) -> list:
             for k in range(order):
                 T = np.moveaxis(np.tensordot(Q, T, axes=([1], [order + k])), 0, order + k)
             return T.reshape(M.shape)
-        compare(B, "rigid rotation", tr)
+        compare(B, "rigid rotation" if kind == "rotate" else f"re-listed lattice vectors {inp['U']} and quarter turns {inp['Q']}", tr)
     return out
 
 
 def gen_description_inputs(rng, n, max_N=(6, 4, 3)):
     for k in range(n):
-        order = (2, 3, 2, 3, 4)[(k + k // 6) % 5]      # every kind meets every order
-        cr = crystal(rng, max_N=max_N[order - 2])
-        kind = ["permute", "shift", "wrap", "unimodular", "rotate", "wrap_each"][k % 6]
+        order = (2, 3, 2, 3, 4)[(k + k // 7) % 5]      # every kind meets every order
+        kind = ["permute", "shift", "wrap", "unimodular", "rotate", "wrap_each", "reorient"][k % 7]
+        if kind == "reorient" and rng.random() < 0.7:
+            cr = crystal(rng, max_N=max_N[order - 2], protos=["sc", "cscl", "tetragonal2", "ortho_inv"], allow_random=False)
+        else:
+            cr = crystal(rng, max_N=max_N[order - 2])
         inp = {"crystal": cr, "orders": [order], "kind": kind, "seed": rng.randrange(10 ** 6)}
-        if rng.random() < 0.5:
+        if rng.random() < (0.5 if kind != "reorient" else 0.85):
             dd = ph.min_image_distances(cr)
             vals = np.unique(np.round(dd[dd > 1e-6], 6))
             if len(vals) > 1:
@@ -704,15 +750,33 @@ def gen_description_inputs(rng, n, max_N=(6, 4, 3)):
                             for a in range(3)]
         if kind == "wrap":
             inp["shift"] = [float(rng.randint(-2, 2)) for _ in range(3)]
+        def signed_perm():
+            M = np.zeros((3, 3), dtype=int)
+            pp = [0, 1, 2]
+            rng.shuffle(pp)
+            for r_, c_ in enumerate(pp):
+                M[r_, c_] = rng.choice([-1, 1])
+            return M
         if kind == "unimodular":
             while True:
                 U = np.array([[rng.randint(-1, 1) for _ in range(3)] for _ in range(3)])
                 if round(abs(np.linalg.det(U))) == 1:
                     break
+            if rng.random() < 0.35:
+                U = signed_perm()            # the lattice vectors merely re-listed (c, a, b) / with other signs
             inp["U"] = U.tolist()
+        if kind == "reorient":
+            inp["U"] = signed_perm().tolist()
+            while True:
+                Q = signed_perm()
+                if round(np.linalg.det(Q)) == 1:
+                    break
+            inp["Q"] = Q.astype(float).tolist()
         if kind == "rotate":
             nprng = np.random.default_rng(rng.getrandbits(32))
             Q, _ = np.linalg.qr(nprng.normal(size=(3, 3)))
+            if rng.random() < 0.35:
+                Q = signed_perm().astype(float)      # quarter turns (possibly with an inversion) about the axes
             inp["Q"] = Q.tolist()
         yield inp
 
@@ -935,6 +999,77 @@ def gen_eig_inputs(rng, n):
         yield {"matrix": M.tolist(), "hooks": hooks}
 
 
+# ------------------------------------------------------------------ caller-supplied operations (C08 / C10 / C11)
+def check_caller_ops(inp) -> list:
+    """the caller supplies the space-group operations (documented argument) of the same structure with SOME atoms
+    told apart (a two-sublattice / magnetic description: a subgroup with fewer pure translations than spglib finds
+    from the species alone). Every order must then live on the SAME translation group: compact output is full output
+    at p2s_map for every fitted order, and the fit equals the one for the crystal whose species really differ
+    (where spglib itself finds that subgroup)."""
+    from symfc import Symfc
+    cr = _cr(inp)
+    N = len(cr.numbers)
+    orders = _orders(inp)
+    out = []
+    rs = np.random.default_rng(inp.get("data_seed", 0))
+    marks = np.array(inp["marks"])
+    cr2 = Crystal(cr.name, cr.lattice, cr.positions, cr.numbers + 50 * marks, cr.n_lp_expected, {})
+    rots, trans = ph.spg_ops(cr2)
+    ops = {"rotations": rots, "translations": trans}
+    S = inp["n_snap"]
+    d = rs.normal(scale=0.05, size=(S, N, 3))
+    f = rs.normal(size=(S, N, 3))
+    try:
+        full = Symfc(cr.atoms(), displacements=d, forces=f, spacegroup_operations=ops).run(orders=list(orders),
+                                                                                          is_compact_fc=False)
+        comp = Symfc(cr.atoms(), displacements=d, forces=f, spacegroup_operations=ops).run(orders=list(orders),
+                                                                                          is_compact_fc=True)
+        ref = Symfc(cr2.atoms(), displacements=d, forces=f).run(orders=list(orders), is_compact_fc=False)
+    except np.linalg.LinAlgError:
+        return []
+    except ValueError as e:
+        if "basis" in str(e).lower() or "empty" in str(e).lower():
+            return []
+        raise
+    p2s = np.asarray(comp.p2s_map)
+    n_tr = sum(1 for r in rots if np.array_equal(r, np.eye(3, dtype=int)))
+    if len(p2s) * n_tr != N:
+        out.append(f"p2s_map has {len(p2s)} atoms, the supplied group has {n_tr} pure translations for {N} atoms")
+    for o in orders:
+        F_, C_, R_ = full.force_constants[o], comp.force_constants[o], ref.force_constants[o]
+        if C_.shape != (len(p2s),) + F_.shape[1:]:
+            out.append(f"orders {orders}: compact order-{o} output has shape {C_.shape}, p2s_map has {len(p2s)} atoms "
+                       f"(caller-supplied operations with {n_tr} pure translations)")
+            continue
+        sc = max(float(np.abs(F_).max()), 1e-300)
+        if float(np.abs(C_ - F_[p2s]).max()) / sc > 1e-9:
+            out.append(f"orders {orders}: compact order-{o} output differs from full[p2s_map] (caller-supplied operations)")
+        if R_.shape != F_.shape or float(np.abs(R_ - F_).max()) / max(float(np.abs(R_).max()), 1e-300) > 1e-6:
+            out.append(f"orders {orders}: order-{o} fit with caller-supplied operations differs from the fit for the crystal "
+                       f"whose species differ (same group found by spglib)")
+    return out
+
+
+def gen_caller_ops_inputs(rng, n):
+    combos = [[2, 3], [3], [2], [2, 3], [3, 4], [2, 3, 4]]
+    for k in range(n):
+        od = rng.choice(combos[:4]) if rng.random() < 0.75 else rng.choice(combos[4:])
+        mx = 3 if 4 in od else (6 if 3 in od else 8)
+        for _ in range(60):
+            cr = crystal(rng, max_N=mx, min_nlp=2)
+            N = len(cr.numbers)
+            marks = [rng.randint(0, 1) for _ in range(N)]
+            if 0 < sum(marks) < N:
+                sizes = _basis_sizes(cr, od, None)
+                if all(v > 0 for v in sizes.values()) and sum(sizes.values()) < 150:
+                    break
+        else:
+            continue
+        yield {"crystal": cr, "orders": od, "marks": marks, "n_snap": 3 * (sum(sizes.values()) // (3 * N) + 4) + 20,
+               "data_seed": rng.randrange(10 ** 6)}
+
+
+
 # ------------------------------------------------------------------ C12 histories on real objects
 def check_history(inp) -> list:
     """a sequence of API calls; every successful solve must equal a fresh object's result; caller arrays,
@@ -986,10 +1121,55 @@ def check_history(inp) -> list:
             fresh_cache[key] = {o: t.force_constants[o].copy() for o in orders}
         return fresh_cache[key]
 
+    held = {}            # the force constants the object holds after its last successful solve (copies)
+    bystander = None
+
+    def stored_results_unchanged(what):
+        got = s.force_constants
+        if set(got) != set(held):
+            return f"{what}: the object's stored orders went from {sorted(held)} to {sorted(got)}"
+        for o_ in held:
+            if got[o_].shape != held[o_].shape or not np.array_equal(got[o_], held[o_]):
+                return f"{what}: the object's stored order-{o_} force constants changed"
+        return None
+
     for op in inp["ops"]:
         kind = op[0]
         try:
-            if kind == "data":
+            if kind == "bystander":
+                # ANOTHER object (own dataset, own basis sets) computes and solves in between: nothing of it may
+                # reach this object's results, and a newly created object holds no results
+                d_b, f_b = datasets[1 - (cur or 0)]
+                if bystander is None:
+                    bystander = Symfc(cr.atoms(), displacements=d_b.copy(), forces=f_b.copy(),
+                                      cutoff=None if cutd is None else dict(cutd))
+                    if bystander.force_constants:
+                        out.append(f"a newly created object already holds force constants of orders "
+                                   f"{sorted(bystander.force_constants)}")
+                bystander.compute_basis_set(orders=op[1])
+                if all(bystander.basis_set[o].basis_set.shape[1] > 0 for o in op[1]):
+                    bystander.solve(orders=op[1], is_compact_fc=op[2])
+                bad = stored_results_unchanged("after another object solved")
+                if bad:
+                    out.append(bad)
+            elif kind == "rejected":
+                # a well-formed request for an order whose basis set is missing, or a malformed one: raises, and the
+                # results the object holds survive
+                missing = [o for o in op[1] if o not in s.basis_set]
+                malformed = tuple(sorted(op[1])) not in [(2,), (3,), (4,), (2, 3), (3, 4), (2, 3, 4)]
+                if cur is not None and (missing or malformed):
+                    try:
+                        s.solve(orders=op[1], is_compact_fc=op[2])
+                        out.append(f"solve(orders={op[1]}) was accepted although "
+                                   + (f"the basis sets of orders {missing} are missing" if missing else "malformed"))
+                    except np.linalg.LinAlgError:
+                        out.append(f"solve(orders={op[1]}) reached the linear solver")
+                    except Exception:
+                        pass
+                    bad = stored_results_unchanged(f"after the rejected solve(orders={op[1]})")
+                    if bad:
+                        out.append(bad)
+            elif kind == "data":
                 cur = op[1]
                 d, f = datasets[cur]
                 dcopy, fcopy = d.copy(), f.copy()
@@ -1003,6 +1183,10 @@ def check_history(inp) -> list:
                 if cur is not None:
                     t.displacements, t.forces = datasets[cur]
                 s = t
+                held = {}
+                if s.force_constants:
+                    out.append(f"a newly created object (basis-set hand-over) already holds force constants of orders "
+                               f"{sorted(s.force_constants)}")
             elif kind == "foreign":
                 # basis sets built by an object with OTHER cutoffs are handed over; the receiver then recomputes
                 # the orders it is going to solve (compute_basis_set), which must restore its own configuration
@@ -1032,6 +1216,11 @@ def check_history(inp) -> list:
                         out.append(f"solve modified the order-{o} basis set")
                 if not np.array_equal(datasets[cur][0], d0) or not np.array_equal(datasets[cur][1], f0):
                     out.append("solve modified the caller's displacement/force arrays")
+                for o in orders:
+                    held[o] = np.array(s.force_constants[o])
+                extra = set(s.force_constants) - set(held)
+                if extra:
+                    out.append(f"after solve {orders} the object holds orders {sorted(extra)} it never solved")
         except np.linalg.LinAlgError:
             continue
         bad = arrays_intact()
@@ -1070,7 +1259,11 @@ def gen_history_inputs(rng, n):
                 ops.append(("data", rng.randint(0, 1)))
             elif r < 0.47:
                 ops.append(("handover",))
-            elif r < 0.6:
+            elif r < 0.53:
+                ops.append(("bystander", rng.choice(combos[:3]), rng.random() < 0.5))
+            elif r < 0.58:
+                ops.append(("rejected", rng.choice([[2, 3], [3], [3, 4], [2, 3, 4], [4], [2, 4], [2, 2]]), rng.random() < 0.5))
+            elif r < 0.68:
                 od = rng.choice(combos[:3] if len(cr.numbers) > 3 else combos)
                 ops.append(("foreign", od))
                 ops.append(("solve", od, rng.random() < 0.5))
@@ -1457,6 +1650,23 @@ def check_api_invalid(inp) -> list:
                                                           not np.array_equal(s.force_constants[k], ref[k]) for k in ref):
                 out.append(f"{call}(max_order={mo}, orders={od}) changed the stored force constants")
                 return out
+    # well-formed requests for orders whose basis set is missing (the object holds order 2 only): raise before
+    # anything is produced, the earlier results survive
+    if not inp.get("all_orders"):
+        for kw in ({"orders": [2, 3]}, {"max_order": 3}, {"orders": [3]}, {"orders": [3, 4]}, {"max_order": 4},
+                   {"orders": [4]}, {"orders": [3, 2]}):
+            try:
+                s.solve(**kw)
+                out.append(f"solve({kw}) was accepted without the basis sets it needs")
+            except np.linalg.LinAlgError:
+                out.append(f"solve({kw}) reached the linear solver without the basis sets it needs")
+            except Exception:
+                pass
+            if set(s.force_constants) != set(ref) or any(id(s.force_constants[k]) != ids[k] or
+                                                          not np.array_equal(s.force_constants[k], ref[k]) for k in ref):
+                out.append(f"the rejected solve({kw}) (missing basis set) changed the stored force constants: orders "
+                           f"{sorted(ref)} -> {sorted(s.force_constants)}")
+                return out
     # shape mismatches
     for bad in inp.get("bad_shapes", []):
         if tuple(bad) == d.shape:
@@ -1495,6 +1705,7 @@ CHECKS = {
     "solver_reuse": check_solver_reuse,
     "process_history": check_process_history,
     "large_cell": check_large_cell,
+    "caller_ops": check_caller_ops,
 }
 
 
